@@ -31,7 +31,7 @@ RULE = ("op sequences (tx / serviceSends / serviceReceives / serviceReceiveOnce 
         "hits every model branch for every class; a case is non-trivial when it has >= 2 tx calls and >= 1 partial "
         "accept or would-block answer on a send that was actually attempted")
 MODELLED = ["kernel/OpenSSL socket behaviour (scripted fake socket: send takes a prefix of the buffer it is given, "
-            "recv returns chunks, errors are OSError/ssl.SSLError instances with args[0] = code)",
+            "recv returns chunks, errors are OSError/ssl.SSLError instances with args[0] = code; after a chunk marked dead, i.e. read after the peer reset, getpeername() raises ENOTCONN)",
             "Python bytearray extend / del [:n] / slicing (as list append, skipn, firstn)",
             "io.BytesIO and bytes %-formatting inside WireLog (each write observed as one record)",
             "OpenSSL's rule that a write retried after WANT_WRITE may see a moved/grown buffer (CPython sets "
@@ -77,6 +77,7 @@ class FakeSock:
         self.sends, self.recvs = [], []
         self.calls = self.n_send = self.n_recv = 0
         self.on_close = None
+        self.dead = False
         self.accepted = bytearray()     # bytes the kernel took, in order
         self.delivered = bytearray()    # bytes the kernel handed out, in order
         self.connect_result = errno.EINPROGRESS
@@ -110,6 +111,8 @@ class FakeSock:
             d = bytes.fromhex(a[1])
             if len(d) > bufsize:
                 self.misuse.append("scripted chunk larger than bufsize")
+            if len(a) > 2 and a[2] == "dead":
+                self.dead = True     # the peer has already reset: these bytes were still queued, the socket is no longer connected
             self.delivered.extend(d)
             return d
         raise make_exc(a[1], a[2])
@@ -122,6 +125,8 @@ class FakeSock:
             raise make_exc(*self.handshake)
 
     def getpeername(self):
+        if self.dead:
+            raise OSError(errno.ENOTCONN, os.strerror(errno.ENOTCONN))
         return self.peer
 
     def getsockname(self):
@@ -527,6 +532,11 @@ def directed():
             ["service", fault_ans(kind, errno.EBADF), [["data", "03"]]],
             ["service", ["acc", 1], [["data", "03"], fault_ans(kind, errno.EBADF)]],
             ["recvs", [["data", "04"], fault_ans(kind, errno.EHOSTDOWN), ["data", "05"]]]]})
+        # the peer resets while bytes are still readable: the socket no longer knows its peer, the wire log must
+        out.append({"kind": kind, "conn0": True, "bs": 16, "wl": WL2, "ops": [
+            ["tx", p1], ["sends", ["acc", 4]], ["recvs", [["data", "0102"], ["data", "0304", "dead"], blk]],
+            ["sends", ["acc", 2]], ["once", ["data", "05"]], ["recvs", [["data", "06"], fault_ans(kind, errno.ECONNRESET)]],
+            ["sends", ["acc", 2]]]})
         # liveness: everything queued is delivered by len(txbs) healthy services (one byte at a time)
         out.append({"kind": kind, "conn0": True, "bs": 8, "wl": WL1, "drain": True, "ops":
                     [["tx", big[:80]], ["sends", blk], ["tx", big[80:120]]] + [["sends", ["acc", 1]]] * 60})
@@ -570,7 +580,10 @@ def gen_case(rng, tier):
             return fault_ans(kind, rng.choice(pool))
         if r < (0.25 if faulty else 0.14):
             return ["data", ""]
-        return ["data", hx(rng, rng.choice([1, bs, rng.randint(1, bs)]))]
+        d = ["data", hx(rng, rng.choice([1, bs, rng.randint(1, bs)]))]
+        if rng.random() < 0.08:
+            d.append("dead")      # still readable although the peer has reset: getpeername() raises ENOTCONN from now on
+        return d
 
     for _ in range(nops):
         r = rng.random()
